@@ -1,7 +1,7 @@
 import QuiverModel.Core.Text.Doc
 import QuiverModel.Lemmas.Text.Escape
 import QuiverModel.Lemmas.Text.Layout
-import QuiverModel.Lemmas.Text.Fragment
+import QuiverModel.Lemmas.Text.FragSeq
 /-
 C17 — Formatting is a fixpoint and preserves the program and its comments.
 Property theorems about M-Text (the layout engine of `pretty.rs` and the string re-escaping of
@@ -321,85 +321,160 @@ is free of trailing white space (so `strip_trailing_whitespace` is the identity 
 reads every layout back as `t`. -/
 
 open QM.Frag QM.Parse in
-/-- The pieces the engine prints for the program `t` carry the text of a layout of `t`. (The pieces
+/-- The pieces the engine prints for the program `ts` carry the text of a layout of `ts`. (The pieces
     themselves are cut differently in one place: the engine emits a field label `x: ` as one atom,
     the layout language keeps the space apart.) -/
-theorem fragment_prints_layout (t : T) (h : t.WF) (w : Nat) :
-    ∃ ps, renderPieces (printPieces (programDoc t) w) = renderPieces ps ∧ LayP t ps := by
-  unfold printPieces programDoc sequenceDoc Doc.mkGroup
+theorem fragment_prints_layout (ts : List T) (h : WFProg ts) (w : Nat) :
+    ∃ ps, renderPieces (printPieces (programDoc ts) w) = renderPieces ps ∧ SeqP ts ps := by
+  unfold printPieces programDoc
   rw [pl_concat]
   simp only [mkFrames, List.cons_append, List.nil_append]
-  obtain ⟨m', hg⟩ := pl_group w 0 0 .brk []
-    (.concat [fieldDoc (chainDoc (termDoc t)), .nest 0 (.concat [])])
-    (forcesBreak (.concat [fieldDoc (chainDoc (termDoc t)), .nest 0 (.concat [])]))
-  rw [hg, pl_concat]
-  simp only [mkFrames, List.cons_append, List.nil_append]
-  obtain ⟨ps', ps, col', hp, hr, hl⟩ := printsAs_fieldDoc (printsAs_chainDoc (printLoop_term t h)) w 0 0 m'
-    [⟨0, m', .nest 0 (.concat [])⟩]
-  rw [hp, pl_nest, pl_concat]
-  simp only [mkFrames, printLoop_nil_nil, List.append_nil]
+  obtain ⟨ps', ps, col', hp, hr, hl⟩ := printsAs_sequence h w 0 0 .brk []
+  rw [hp, printLoop_nil_nil, List.append_nil]
   exact ⟨ps, hr, hl⟩
 
 open QM.Frag QM.Parse in
 /-- `print` of the program's document is the text of that layout: stripping trailing white space
     changes nothing. -/
-theorem fragment_print_eq (t : T) (h : t.WF) (w : Nat) :
-    print (programDoc t) w = renderPieces (printPieces (programDoc t) w) := by
-  obtain ⟨ps, hr, hl⟩ := fragment_prints_layout t h w
+theorem fragment_print_eq (ts : List T) (h : WFProg ts) (w : Nat) :
+    print (programDoc ts) w = renderPieces (printPieces (programDoc ts) w) := by
+  obtain ⟨ps, hr, hl⟩ := fragment_prints_layout ts h w
   unfold print
   rw [hr]
-  exact strip_layP hl
+  exact strip_renderPieces (seqP_tidy hl true)
 
 open QM.Frag QM.Parse in
-/-- C17 on the fragment: for every program `t` of the fragment and every page width, parsing the
-    formatted text gives `t` back (the whole text is consumed). -/
-theorem format_fixpoint_fragment (t : T) (h : t.WF) (w : Nat) :
-    programP (print (programDoc t) w) = .ok t [] := by
-  rw [fragment_print_eq t h w]
-  obtain ⟨ps, hr, hl⟩ := fragment_prints_layout t h w
-  rw [hr]
-  have hp := termP_lay hl ((renderPieces ps).length + 1) [] (by omega) stop_nil
-  rw [List.append_nil] at hp
+/-- the tail of `program` after the (only) sequence, at the end of the text or before its final
+    newline -/
+theorem programP_of_sequence {ts : List T} {s : Str} {n : Nat} (hh : HeadOk s) (hn : n = s.length + 1)
+    (hseq : sequenceP n s = .ok ts []) : programP s = .ok [ts] [] := by
   unfold programP
-  rw [seq_ok (wsc_headOk (layP_head hl))]
-  exact before_ok (b := ()) hp (by simp [QM.Parse.seq, QM.Parse.bind, wsc, skipWsc, peof])
+  rw [seq_ok (wsc_headOk hh), ← hn]
+  refine before_ok (b := ()) (before_ok (b := none) (sepList0_cons hseq (sepTail_of_fails seqSep_fails_nil))
+    (opt_of_fails seqSep_fails_nil)) ?_
+  simp [QM.Parse.seq, QM.Parse.bind, wsc, skipWsc, peof]
+
+open QM.Frag QM.Parse in
+/-- C17 on the fragment: for every program `ts` of the fragment and every page width, parsing the
+    formatted text gives the program back — one statement, the sequence `ts`; the whole text is
+    consumed. -/
+theorem format_fixpoint_fragment (ts : List T) (h : WFProg ts) (w : Nat) :
+    programP (print (programDoc ts) w) = .ok [ts] [] := by
+  rw [fragment_print_eq ts h w]
+  obtain ⟨ps, hr, hl⟩ := fragment_prints_layout ts h w
+  rw [hr]
+  refine programP_of_sequence (seqP_head hl) rfl ?_
+  unfold sequenceP
+  have hp := seqP_lay hl ((renderPieces ps).length + 1) [] (by omega) stop_nil
+    (sepTail_of_fails seqSep_fails_nil)
+  rw [List.append_nil] at hp
+  exact before_ok (b := none) hp (opt_of_fails seqSep_fails_nil)
 
 open QM.Frag QM.Parse in
 /-- … hence formatting is a fixpoint there: formatting what the formatted text parses to gives the
     same text again (at any pair of widths the second run sees the same program). -/
-theorem format_idempotent_fragment (t : T) (h : t.WF) (w : Nat) :
-    ∃ t', programP (print (programDoc t) w) = .ok t' [] ∧
-      print (programDoc t') w = print (programDoc t) w :=
-  ⟨t, format_fixpoint_fragment t h w, rfl⟩
+theorem format_idempotent_fragment (ts : List T) (h : WFProg ts) (w : Nat) :
+    ∃ ts', programP (print (programDoc ts) w) = .ok [ts'] [] ∧
+      print (programDoc ts') w = print (programDoc ts) w :=
+  ⟨ts, format_fixpoint_fragment ts h w, rfl⟩
 
 open QM.Frag QM.Parse in
 /-- The model of `format_program` on the fragment returns the layout's text and a final newline:
     `collapse_blanks` finds no blank line to merge and no trailing blank line to drop (every line of
     a layout ends in a non-blank character), `expand_literals` finds no placeholder line (no line
     starts, after its indentation, with NUL) and nothing panics. -/
-theorem fmtFrag_eq (t : T) (h : t.WF) :
-    fmtFrag t = renderPieces (printPieces (programDoc t) pageWidth) ++ ['\n'] := by
-  obtain ⟨ps, hr, hl⟩ := fragment_prints_layout t h pageWidth
-  have hp := post_passes_layP hl
+theorem fmtFrag_eq (ts : List T) (h : WFProg ts) :
+    fmtFrag ts = renderPieces (printPieces (programDoc ts) pageWidth) ++ ['\n'] := by
+  obtain ⟨ps, hr, hl⟩ := fragment_prints_layout ts h pageWidth
+  have hp := post_passes (seqP_tidy hl false) (seqP_nulFree hl)
   unfold fmtFrag
-  rw [fragment_print_eq t h pageWidth, hr, hp.1, hp.2]
+  rw [fragment_print_eq ts h pageWidth, hr, hp.1, hp.2]
 
 open QM.Frag QM.Parse in
 /-- C17 on the fragment, for the whole of `format_program` (layout at `WIDTH`, `collapse_blanks`,
     `expand_literals`): parsing the formatted program gives the program back. -/
-theorem format_program_fixpoint_fragment (t : T) (h : t.WF) : programP (fmtFrag t) = .ok t [] := by
-  rw [fmtFrag_eq t h]
-  obtain ⟨ps, hr, hl⟩ := fragment_prints_layout t h pageWidth
+theorem format_program_fixpoint_fragment (ts : List T) (h : WFProg ts) :
+    programP (fmtFrag ts) = .ok [ts] [] := by
+  rw [fmtFrag_eq ts h]
+  obtain ⟨ps, hr, hl⟩ := fragment_prints_layout ts h pageWidth
   rw [hr]
-  have hp := termP_lay hl ((renderPieces ps ++ ['\n']).length + 1) ['\n'] (by simp; omega) stop_nl
-  unfold programP
-  rw [seq_ok (wsc_headOk ((layP_head hl).append _))]
-  exact before_ok (b := ()) hp (by simp [QM.Parse.seq, QM.Parse.bind, wsc, skipWsc, isMultispace, peof])
+  refine programP_of_sequence ((seqP_head hl).append _) rfl ?_
+  unfold sequenceP
+  have hfail : Fails (termP ((renderPieces ps ++ ['\n']).length + 1)) [] :=
+    Fails.alt (tupleP_fails rfl rfl) (Fails.pmap (identifier_fails_of_head rfl))
+  have hp := seqP_lay hl ((renderPieces ps ++ ['\n']).length + 1) ['\n'] (by simp; omega) stop_nl
+    (sepTail_item_fails seqSep_final (by simp) hfail)
+  exact before_ok (b := some ()) hp (opt_ok seqSep_final)
 
 open QM.Frag QM.Parse in
 /-- … and formatting that again gives the same text: `format_program` is a fixpoint on the fragment. -/
-theorem format_program_idempotent_fragment (t : T) (h : t.WF) :
-    ∃ t', programP (fmtFrag t) = .ok t' [] ∧ fmtFrag t' = fmtFrag t :=
-  ⟨t, format_program_fixpoint_fragment t h, rfl⟩
+theorem format_program_idempotent_fragment (ts : List T) (h : WFProg ts) :
+    ∃ ts', programP (fmtFrag ts) = .ok [ts'] [] ∧ fmtFrag ts' = fmtFrag ts :=
+  ⟨ts, format_program_fixpoint_fragment ts h, rfl⟩
+
+/-! ## The statement for the whole language, and how much of it is covered
+
+`FormatFixpointStatement parse format InLang` is C17's round-trip half for a language given by its
+parser and formatter: every program of the language, formatted, parses back to itself, and whatever
+the formatted text parses to formats to the same text again (idempotence). For Quiver, `parse` and
+`format` are `quiver_compiler::parse` and `format_program` and `InLang` is "is the AST of some source";
+the theorem below instantiates it for the two MODELS restricted to the fragment, and the `frag`
+differential ties the two models to the two Rust functions on that fragment.
+
+Covered after step 2: one statement that is a sequence of one or more steps (`,` / newline
+separated), each step a one-term chain whose term is a bare identifier, a bare tuple name, or an
+anonymous or named tuple of unnamed / named fields of the same kind; no trivia.
+Outside (decided by the implementation oracle only): chains of several terms (`a ~> b`, `[x] f`),
+bindings and patterns (`x = …`, `(a) = …` — hence the `(`-initial step rules of 0ca76af / 63d9fac),
+blocks and branches, functions, spawns, selects, literals, strings, accessors, imports, spreads,
+type aliases, and all comments / blank lines. -/
+
+/-- C17's round-trip statement for a language (`InLang`) with parser `parse` and formatter `format`. -/
+def FormatFixpointStatement {Prog : Type} (parse : List Char → Option Prog) (format : Prog → List Char)
+    (InLang : Prog → Prop) : Prop :=
+  ∀ p, InLang p →
+    parse (format p) = some p ∧ ∀ p', parse (format p) = some p' → format p' = format p
+
+open QM.Frag QM.Parse in
+/-- what `quiver_compiler::parse` returns, restricted to programs that are one sequence -/
+def fragParse (s : List Char) : Option (List T) :=
+  match programP s with
+  | .ok [ts] [] => some ts
+  | _ => none
+
+open QM.Frag QM.Parse in
+/-- the statement holds for the fragment (models of `parse` and `format_program`) -/
+theorem formatFixpointStatement_fragment : FormatFixpointStatement fragParse fmtFrag WFProg := by
+  intro ts h
+  have hp : fragParse (fmtFrag ts) = some ts := by
+    unfold fragParse; rw [format_program_fixpoint_fragment ts h]
+  refine ⟨hp, ?_⟩
+  intro p' h'
+  rw [hp] at h'
+  cases h'
+  rfl
+
+open QM.Frag QM.Parse in
+/-- The parser rule behind the formatter's "tuple name, then `(`" rule (0ca76af, 63d9fac): a bare tuple
+    name followed by white space — a newline included — and `(` is NOT read as that name (it is the
+    head of a partial pattern/type), so a newline is not a step separator there. (Steps starting with
+    `(` are outside the fragment; on the implementation the rule is pinned by `corpus/C17/f20*`,
+    `f23*`.) -/
+theorem bare_name_refuses_paren_after_newline :
+    tupleP (fieldP (termP 1)) ['A', '\n', '(', ')'] ≠ .ok (.tup (some ['A']) []) ['\n', '(', ')'] := by
+  have h1 : Fails (bracketsP (fieldP (termP 1))) ['\n', '(', ')'] := bracketsP_fails rfl
+  have hname : tupleName ['A', '\n', '(', ')'] = .ok ['A'] ['\n', '(', ')'] :=
+    tupleName_append (n := ['A']) (rest := ['\n', '(', ')']) rfl (by intro c t e; cases e; decide)
+  have h3 : Fails (bind tupleName fun n => pmap (peekNot (seq ws0 (pchar '(')))
+      (fun _ => T.tup (some n) [])) ['A', '\n', '(', ')'] := by
+    refine Fails.bind_ok hname (Fails.pmap ?_)
+    exact ⟨['\n', '(', ')'], .not, by simp [peekNot, QM.Parse.seq, QM.Parse.bind, ws0, pchar, isMultispace]⟩
+  have hfail : Fails (tupleP (fieldP (termP 1))) ['A', '\n', '(', ')'] :=
+    Fails.alt (Fails.bind_ok hname (Fails.pmap h1))
+      (Fails.alt (Fails.pmap (bracketsP_fails rfl)) h3)
+  obtain ⟨e, c, he⟩ := hfail
+  rw [he]
+  intro h
+  cases h
 
 end C17
